@@ -74,6 +74,13 @@ impl PutQuery {
             }
         }
 
+        // None of the given nodes carried a write token (e.g. they came from a `find_node`
+        // lookup), so nothing was sent: fail now, otherwise this query never counts as
+        // started and the caller would wait forever.
+        if self.inflight_requests.is_empty() {
+            Err(PutQueryError::NoClosestNodes)?;
+        }
+
         Ok(())
     }
 
